@@ -7,7 +7,7 @@ From V Require Import Common.Base J2K.RCT J2K.RCTProofs J2KGeo.GeoModel J2KGeo.G
   J2KGeo.GeoProofsBlocks T2.T2Header DWT.DwtModel DWT.DwtGrowth HT.HtLevels HT.HtProofsLevels
   Pipe.PipeModel Pipe.PipeProofsFront Pipe.PipeProofsGeo Pipe.PipeProofsBlock
   PipeHT.PhtModel PipeHT.PhtProofsEnc PipeHT.PhtProofsMain PipeHT.PhtProofsDeliv PipeHT.PhtProofsKmax PipeHT.PhtProofsDwt1.
-Require V.HT.HtBlockProofsQuad V.HT.HtProofsTables V.Pipe.PipeProofsMain.
+Require V.HT.HtBlockProofsQuad V.HT.HtProofsTables V.Pipe.PipeProofsMain V.DWT.DwtGrowth2.
 
 (* ---------- RCT on two's-complement ranges ---------- *)
 Lemma rct_fwd32_ab : forall a r g b, 1 <= a <= 2 ^ 27 -> - a <= r <= a - 1 -> - a <= g <= a - 1 -> - a <= b <= a - 1 ->
@@ -73,7 +73,7 @@ Proof.
     unfold abnd. apply Forall_map_iff. apply Forall_forall. intros v Hv.
     apply In_nth with (d := 0) in Hv. destruct Hv as [i [Hi Ev]]. rewrite HFlen in Hi.
     specialize (Hent c (Z.of_nat i) Hc ltac:(lia)). rewrite <- Ed in Hent.
-    rewrite (nth_zrange_map F nc c [] Hc), Nat2Z.id in Hent. unfold zn0 in Hent. rewrite Ev in Hent.
+    rewrite (nth_zrange_map p F nc c [] Hc), Nat2Z.id in Hent. unfold zn0 in Hent. rewrite Ev in Hent.
     assert (Hin : in_sample_range P sg v).
     { rewrite Hent. rewrite Forall_forall in Hrng. apply Hrng. apply nth_In. unfold zlen in Hlen. fold np nc in Hlen. nia. }
     pose proof (dc_shift_range P sg v HP Hin) as [Hr _]. lia.
@@ -179,3 +179,16 @@ Proof.
   intros p samples tile Hs HL1 Hx0 Hy0 Hsm pix Ht.
   exact (pht_decode_given_delivery p samples tile Hs Hsm (pht_kmax_fit_levels1 p samples Hs HL1 Hx0 Hy0 Hsm) Ht).
 Qed.
+
+(* ---------- why this argument stops at one level ----------
+   The per-pass bounds compose level by level (DwtGrowth2.fwd_pass_sharp: the LL window of a level is
+   within Lb (Lb B), Lb a = (3a + 1) / 2, everything else within 4 B).  Already at depth 2 that
+   composition is too weak for the Kmax of the band: the HH band of depth 2 would need
+   4 * Lb (Lb A) < 2^Kmax = 8 A, but 4 * Lb (Lb A) >= 9 A.  The true gains (6.25 for that band, 2.64
+   for LL of depth 2) come from cancellation ACROSS levels (the composite filter), which no bound of
+   the form "sup of the previous level's window" can see; a proof for >= 2 levels has to bound the L1
+   norm of the composite multi-level filters (with folding at the borders) plus the rounding terms. *)
+Lemma level_recursion_insufficient : forall rct,
+  forallb (fun P => 2 ^ kmax_of 2 P rct 3 <=? 4 * DwtGrowth2.Lb (DwtGrowth2.Lb (2 ^ (prec_of P rct - 1))))
+          (HtProofsTables.zrange 1 16) = true.
+Proof. intros [|]; vm_compute; reflexivity. Qed.
